@@ -48,9 +48,21 @@ func concEvents(args []string, out *bufio.Writer) {
 				}()
 			},
 		}
+		// every fourth script is "big": thousands of distinct keys below a large maximum and a processor count that does not
+		// divide the table length: whatever leaves the table during growth must be reported as well
+		big := i%4 == 3
+		prevProcs := runtime.GOMAXPROCS(0)
+		if big {
+			runtime.GOMAXPROCS(pick(r, []int{3, 5, 6, 7, 12}))
+			o.MaximumSize = 50000
+		}
 		c := otter.Must(o)
 		nkeys := 1 + r.intn(6)
 		writers := 2 + r.intn(7)
+		if big {
+			nkeys = 4000 + r.intn(4000)
+			writers = 2 + r.intn(3)
+		}
 		written := make([][]int, writers)
 		var wg sync.WaitGroup
 		for w := 0; w < writers; w++ {
@@ -59,10 +71,18 @@ func concEvents(args []string, out *bufio.Writer) {
 			go func(w int) {
 				defer wg.Done()
 				lr := &rng{s: ws}
-				for j := 0; j < 60+lr.intn(300); j++ {
+				ops := 60 + lr.intn(300)
+				if big {
+					ops = 2 * nkeys / writers
+				}
+				for j := 0; j < ops; j++ {
 					k := lr.intn(nkeys)
 					v := (w+1)*1000000 + j
-					switch lr.intn(12) {
+					op := lr.intn(12)
+					if big && op == 9 {
+						op = 0 // keep the large maximum
+					}
+					switch op {
 					case 0, 1, 2, 3, 4, 5:
 						c.Set(k, v)
 						written[w] = append(written[w], v)
@@ -126,5 +146,6 @@ func concEvents(args []string, out *bufio.Writer) {
 		mu.Unlock()
 		fmt.Fprintf(out, "end size=%d\n", c.EstimatedSize())
 		c.StopAllGoroutines()
+		runtime.GOMAXPROCS(prevProcs)
 	}
 }
